@@ -4,6 +4,8 @@ import (
 	"strings"
 	"testing"
 
+	"pgregory.net/rapid"
+
 	"verif/harness/internal/pand"
 	sg "verif/harness/internal/scengen"
 	"verif/harness/internal/vf"
@@ -32,6 +34,7 @@ func anyString(m sg.Model, suffix string, f func(s string) bool) bool {
 const (
 	findingMergeKey = "hcl-map-key-read-as-yaml-merge"
 	findingIndexFn  = "hcl-index-function-is-element-access"
+	findingVarTypes = "hcl-variables-numbers-become-strings"
 )
 
 // usesFunc reports whether the HCL-only part of the description calls fn.
@@ -97,49 +100,54 @@ var findings = []finding{
 					fcall("index", sg.Expr{K: "ref", S: "names"}, lit("b")))}}
 		},
 	},
+	{
+		// `variables = { port = 8090 }` (docs/eng/scenario/variable_source.md): SourceHCL.Variables is a
+		// map[string]string, so the source holds the string "8090"; `port: 8090` in YAML holds the number
+		id: findingVarTypes,
+		matches: func(m sg.Model) bool {
+			for _, s := range m.Sources {
+				if len(s.TypedKeys) > 0 {
+					return true
+				}
+			}
+			return false
+		},
+		witness: func() sg.Model {
+			return sg.Model{Kind: "http",
+				Sources:   []sg.Source{{Name: "global", Type: sg.SourceVariables, Variables: &sg.KVs{{K: "host", V: "localhost"}, {K: "port", V: "8090"}}, TypedKeys: []string{"port"}}},
+				Requests:  []sg.Request{{Name: "r", Method: "GET", URI: "/"}},
+				Scenarios: []sg.Scenario{{Name: "s", Steps: []sg.Step{{Name: "r"}}}}}
+		},
+	},
 }
 
-// TestKnownWitness re-runs the fixed witness of every listed finding with the
-// strict oracle; a witness that still fails is reported as KNOWN-FINDING.
+// TestKnownWitness runs fixed cases with the strict oracle, each as a subtest
+// with its own report: the documentation's example (must pass), and the witness
+// of every finding. While a finding is listed as known its failing witness is
+// reported as KNOWN-FINDING; otherwise the witness is a plain case (it fails
+// with a replay file until the defect is fixed).
 func TestKnownWitness(t *testing.T) {
 	pand.Init()
-	r := vf.Start(t, "C16")
-	// the documentation's own example (docs/eng/scenario-http-generator.md) always runs and must pass
-	{
-		c := Case{Model: docExample()}
-		o := &vf.Obs{}
-		err := vf.Guard(func() error { return check(c, o) })
-		r.Record(c, o, err)
-		if err != nil {
-			t.Errorf("documentation example: %v", err)
-		}
-	}
-	ran := 0
-	for _, f := range findings {
-		if !r.IsKnown(f.id) {
-			continue
-		}
-		ran++
-		c := Case{Model: f.witness()}
-		o := &vf.Obs{}
-		err := vf.Guard(func() error { return check(c, o) })
-		r.Record(c, o, nil)
-		if err != nil {
-			t.Logf("%s still present: %v", f.id, err)
-			r.KnownHit(f.id)
-		}
-	}
-	if ran == 0 {
-		// nothing listed: the witnesses are plain cases that must pass
-		for _, f := range findings {
-			c := Case{Model: f.witness()}
-			o := &vf.Obs{}
-			err := vf.Guard(func() error { return check(c, o) })
-			r.Record(c, o, err)
-			if err != nil {
-				t.Errorf("%s: %v", f.id, err)
+	fixed := func(name string, m func() sg.Model, id string) {
+		t.Run(name, func(t *testing.T) {
+			r := vf.Start(t, "C16")
+			c := Case{Model: m()}
+			if id != "" && r.IsKnown(id) {
+				o := &vf.Obs{}
+				err := vf.Guard(func() error { return check(c, o) })
+				r.Record(c, o, nil)
+				if err != nil {
+					t.Logf("%s still present: %v", id, err)
+					r.KnownHit(id)
+				}
+				return
 			}
-		}
+			vf.Check(r, func(*rapid.T) Case { return c }, check)
+		})
+	}
+	fixed("doc-example", docExample, "")
+	for _, f := range findings {
+		fixed(f.id, f.witness, f.id)
 	}
 }
 
